@@ -538,6 +538,9 @@ func (db *DB) loadIndexFromDataFiles(fileIds []uint32, nonMergeFileId uint32) er
 						updateIndex(txnRecord.Record.Key, txnRecord.Record.Type, txnRecord.Pos)
 					}
 					delete(transactionRecords, batchID)
+					// 完成标识记录占用空间, 但不属于有效数据
+					db.totalSize += int64(pos.Size)
+					db.reclaimSize += int64(pos.Size)
 				} else {
 					// 暂存用于后续更新索引的相关数据
 					transactionRecords[batchID] = append(transactionRecords[batchID], &datafile.TransactionRecords{
